@@ -646,7 +646,11 @@ func (q *c15StateQ) GetAuthEvents(ctx context.Context, event gmsl.PDU) (gmsl.Aut
 }
 
 func (q *c15StateQ) GetState(ctx context.Context, roomID spec.RoomID, wanted []gmsl.StateKeyTuple) ([]gmsl.PDU, error) {
-	q.log.add("G", roomID.String())
+	e := []string{"G", roomID.String()}
+	for _, t := range wanted {
+		e = append(e, t.EventType+t.StateKey)
+	}
+	q.log.add(e...)
 	switch q.mode {
 	case "err":
 		return nil, errC15Querier
@@ -697,12 +701,15 @@ func c15Invite(args [][]byte) ([][]byte, []byte) {
 	lpk, _ := c15Key("local")
 
 	stateEvs := c15RoomStateEvents(buildVer)
+	// what a stripped state entry must look like, stated independently of NewInviteStrippedState / MarshalJSON
+	stripped := func(e gmsl.PDU) interface{} {
+		return c15Obj{"content": json.RawMessage(e.Content()), "state_key": c15StrPtr(e.StateKey()), "type": e.Type(), "sender": string(e.SenderID())}
+	}
 	var given []gmsl.InviteStrippedState
 	var givenJSON []interface{}
 	for i := 0; i < s.Given && i < len(stateEvs); i++ {
-		st := gmsl.NewInviteStrippedState(stateEvs[i])
-		given = append(given, st)
-		givenJSON = append(givenJSON, json.RawMessage(c15JSON(st)))
+		given = append(given, gmsl.NewInviteStrippedState(stateEvs[i]))
+		givenJSON = append(givenJSON, stripped(stateEvs[i]))
 	}
 	var generated interface{}
 	switch s.Generated {
@@ -715,7 +722,7 @@ func c15Invite(args [][]byte) ([][]byte, []byte) {
 	default:
 		l := []interface{}{}
 		for _, e := range stateEvs {
-			l = append(l, json.RawMessage(c15JSON(gmsl.NewInviteStrippedState(e))))
+			l = append(l, stripped(e))
 		}
 		generated = l
 	}
